@@ -20,6 +20,11 @@ __CPROVER_ensures(g_pipe_peer != NNI_PROTO_PAIR_V0 ==> (RV == NNG_EPROTO && P0_S
 __CPROVER_ensures((g_pipe_peer == NNI_PROTO_PAIR_V0 && OLD(P0_S->p) != NULL) ==> (RV == NNG_EBUSY && P0_S->p == OLD(P0_S->p) && g_pipe_recv_calls == OLD(g_pipe_recv_calls) && g_p0_sched_calls == OLD(g_p0_sched_calls)))
 /* else attaches: this pipe is THE peer, its receive is armed, the send side is scheduled */
 __CPROVER_ensures((g_pipe_peer == NNI_PROTO_PAIR_V0 && OLD(P0_S->p) == NULL) ==> (RV == 0 && P0_S->p == P0_P && !P0_S->rd_ready && g_pipe_recv_calls == OLD(g_pipe_recv_calls) + 1 && g_pipe_recv_pipe == P0_P->pipe && g_pipe_recv_aio == &P0_P->aio_recv && g_p0_sched_calls == OLD(g_p0_sched_calls) + 1))
+/* a refused peer (wrong protocol, or NNG_EBUSY while the first is alive) must not disturb the live pair: NOTHING of the socket changes -
+ * readiness flags, the attached peer, both descriptors, waiting operations; nothing is sent, completed or closed (wr_ready, the rings and the
+ * attached pipe's own state are not assignable at all: frame) */
+__CPROVER_ensures(RV != 0 ==> (P0_S->p == OLD(P0_S->p) && P0_S->rd_ready == OLD(P0_S->rd_ready) && g_pollr == OLD(g_pollr) && g_pollw == OLD(g_pollw) && g_qa.n == OLD(g_qa.n) && g_qb.n == OLD(g_qb.n) && g_fin_calls == OLD(g_fin_calls) && g_pipe_send_calls == OLD(g_pipe_send_calls) && g_pipe_recv_calls == OLD(g_pipe_recv_calls) && g_pipe_close_calls == OLD(g_pipe_close_calls) && g_p0_sched_calls == OLD(g_p0_sched_calls)))
+__CPROVER_ensures(RV == 0 || RV == NNG_EPROTO || RV == NNG_EBUSY)
 ;
 
 /* ASSUMED inside pair0_pipe_start only (counts the call); its real body is verified by unit pair0_send_sched */
@@ -105,9 +110,10 @@ __CPROVER_requires(__CPROVER_is_fresh(aio, sizeof(nni_aio)) && VP_AIO_NOT_QUEUED
 __CPROVER_requires(P0_RS->rd_ready ==> (__CPROVER_is_fresh(P0_RS->p, sizeof(struct pair0_pipe)) && __CPROVER_is_fresh(P0_HELD, sizeof(struct nng_msg))))
 __CPROVER_requires(P0_RS->rd_ready ==> g_p2 == (void *) P0_HELD)
 __CPROVER_requires(P0_RS->rmq.lmq_len > 0 ==> __CPROVER_is_fresh(LMQ_VIEW(&P0_RS->rmq, 0), sizeof(struct nng_msg)))
-/* stable state: receivers wait only when nothing is buffered or held; a message is held only when the buffer is full */
+/* stable state: receivers wait only when nothing is buffered or held */
 __CPROVER_requires(g_qa.n == 0 || (P0_RS->rmq.lmq_len == 0 && !P0_RS->rd_ready))
-__CPROVER_requires(!P0_RS->rd_ready || P0_RS->rmq.lmq_len >= P0_RS->rmq.lmq_cap)
+/* (no "a message is held only when the buffer is full" precondition: growing NNG_OPT_RECVBUF leaves a parked message parked,
+ * see modules/pairx *_set_recv_buf_len; the postconditions below hold for a parked message with room in the buffer as well) */
 __CPROVER_requires((P0_RS->rmq.lmq_len > 0 || P0_RS->rd_ready) ==> g_pollr)
 __CPROVER_requires(g_k < P0_RS->rmq.lmq_len ==> g_p == (void *) LMQ_VIEW(&P0_RS->rmq, g_k))
 __CPROVER_assigns(aio->a_msg, aio->a_result, aio->a_count, P0_RS->rd_ready, P0_RS->rmq.lmq_get, P0_RS->rmq.lmq_put, P0_RS->rmq.lmq_len, __CPROVER_object_whole(P0_RS->rmq.lmq_msgs), VP_PROTO_GHOST_LIST, VP_SYNC_GHOSTS)
